@@ -1643,3 +1643,174 @@ theorem c16_copy_keeps_named (ts : List Table) (c : Nat) (keep : List Name) (t :
 
 example : (stepT [⟨2, [(0, ⟨.i64, [1, 2]⟩), (1, ⟨.f32, [3, 4]⟩), (4, ⟨.f64, [5, 6]⟩)]⟩] (.tidyUp 0 [4])).1 =
     [⟨2, [(4, ⟨.f64, [5, 6]⟩)]⟩] := by decide
+
+/-! ### deepening round: arrays handed out are live (`__getitem__` returns the stored ndarray) -/
+
+/-- **A caller's write into an array handed out by `__getitem__`** changes that one heap cell and nothing else: no container
+is rebound, every other location keeps its content — and every slot bound to that location (of this or any other container)
+sees the write. In any state. -/
+theorem c16_poke_frame (s : St) (d m k : Nat) (v : Int) :
+    (stepX s (.poke d m k v)).1.conts = s.conts ∧
+    ∀ (l' : Nat), (∀ cont, s.conts[d]? = some cont → cont.fields.lookup m ≠ some l') →
+      (stepX s (.poke d m k v)).1.heap[l']? = s.heap[l']? := by
+  simp only [stepX]
+  cases hd : s.conts[d]? with
+  | none => exact ⟨rfl, fun _ _ => rfl⟩
+  | some src =>
+    simp only
+    cases hl : src.fields.lookup m with
+    | none => exact ⟨rfl, fun _ _ => rfl⟩
+    | some l =>
+      simp only
+      cases hc : s.heap[l]? with
+      | none => exact ⟨rfl, fun _ _ => rfl⟩
+      | some col =>
+        simp only
+        split
+        · refine ⟨rfl, fun l' hne => ?_⟩
+          have : l ≠ l' := fun h => hne src rfl (by rw [hl, h])
+          simp only [List.getElem?_set_ne this]
+        · exact ⟨rfl, fun _ _ => rfl⟩
+
+namespace C16
+theorem rest_unaffected {h : List Col} {l : Loc} {newc : Col} : ∀ {fs : List (Name × Loc)} {cols : List (Name × Col)},
+    List.Forall₂ (fun (a : Name × Loc) (b : Name × Col) => a.1 = b.1 ∧ h[a.2]? = some b.2) fs cols →
+    (∀ p ∈ fs, p.2 ≠ l) → fs.map (fun p => (p.1, (h.set l newc)[p.2]?)) = cols.map (fun p => (p.1, some p.2)) := by
+  intro fs cols hf
+  induction hf with
+  | nil => intro _; rfl
+  | @cons a b fs cols hab _ ih =>
+    intro hno
+    have ha : l ≠ a.2 := fun he => hno a List.mem_cons_self he.symm
+    simp only [List.map_cons, ih (fun p hp => hno p (List.mem_cons_of_mem _ hp)), List.getElem?_set_ne ha, hab.1, hab.2]
+
+theorem map_id_of_keys_ne {m : Name} {newc : Col} (cols : List (Name × Col)) (h : ∀ p ∈ cols, p.1 ≠ m) :
+    (cols.map fun p => if p.1 == m then (p.1, newc) else p) = cols := by
+  conv_rhs => rw [← List.map_id cols]
+  apply List.map_congr_left
+  intro p hp
+  have : (p.1 == m) = false := by simpa using h p hp
+  simp [this]
+
+theorem forall₂_keys {h : List Col} : ∀ {fs : List (Name × Loc)} {cols : List (Name × Col)},
+    List.Forall₂ (fun (a : Name × Loc) (b : Name × Col) => a.1 = b.1 ∧ h[a.2]? = some b.2) fs cols →
+    cols.map (·.1) = fs.map (·.1) := by
+  intro fs cols hf
+  induction hf with
+  | nil => rfl
+  | cons hab _ ih => simp [ih, hab.1]
+
+theorem poke_cols {h : List Col} {m : Name} {l : Loc} {newc : Col} :
+    ∀ {fs : List (Name × Loc)} {cols : List (Name × Col)},
+      List.Forall₂ (fun (a : Name × Loc) (b : Name × Col) => a.1 = b.1 ∧ h[a.2]? = some b.2) fs cols →
+      (fs.map (·.2)).Nodup → (fs.map (·.1)).Nodup → fs.lookup m = some l → l < h.length →
+      fs.map (fun p => (p.1, (h.set l newc)[p.2]?)) =
+        (cols.map fun p => if p.1 == m then (p.1, newc) else p).map (fun p => (p.1, some p.2)) := by
+  intro fs cols hf
+  induction hf with
+  | nil => intro _ _ hl; simp [List.lookup] at hl
+  | @cons a b fs cols hab hrest ih =>
+    intro hnl hnk hl hlt
+    obtain ⟨a1, a2⟩ := a
+    obtain ⟨b1, b2⟩ := b
+    simp only at hab
+    obtain ⟨hab1, h2⟩ := hab
+    simp only [List.map_cons, List.nodup_cons] at hnl hnk
+    simp only [List.lookup] at hl
+    by_cases hk : (m == a1) = true
+    · have hma : m = a1 := by simpa using hk
+      rw [hk] at hl
+      have hal : a2 = l := by simpa using hl
+      have hno : ∀ p ∈ fs, p.2 ≠ l := fun p hp he => hnl.1 (List.mem_map.mpr ⟨p, hp, by rw [he, hal]⟩)
+      have hkeys : ∀ p ∈ cols, p.1 ≠ m := by
+        intro p hp he
+        have : p.1 ∈ fs.map (·.1) := by rw [← forall₂_keys hrest]; exact List.mem_map.mpr ⟨p, hp, rfl⟩
+        exact hnk.1 (by rw [← hma, ← he]; exact this)
+      have hb : (b1 == m) = true := by rw [← hab1, hma]; simp
+      simp only [List.map_cons, rest_unaffected hrest hno, map_id_of_keys_ne cols hkeys, hb, if_true, hal]
+      simp [hlt, hab1]
+    · have hk' : (m == a1) = false := by simpa using hk
+      rw [hk'] at hl
+      have hne : ¬ b1 = m := by rw [← hab1]; intro he; simp [he] at hk
+      have hla : l ≠ a2 := by
+        intro he
+        exact hnl.1 (List.mem_map.mpr ⟨(m, l), mem_of_lookup _ _ _ hl, he⟩)
+      have hk2 : (b1 == m) = false := by simpa using hne
+      simp only [List.map_cons, hk2, List.getElem?_set_ne hla, h2, Bool.false_eq_true, if_false, hab1]
+      rw [ih hnl.2 hnk.2 hl hlt]
+end C16
+
+theorem C16.map_if_keys (m : Name) (newc : Col) (cols : List (Name × Col)) :
+    (cols.map fun p => if p.1 == m then (p.1, newc) else p).map (·.1) = cols.map (·.1) := by
+  rw [List.map_map]
+  apply List.map_congr_left
+  intro p _
+  simp only [Function.comp]
+  split <;> rfl
+
+/-- **A caller's write refines the plain table** when no location is shared: the heap layer after `conts[d][m][k] = v`
+represents the tables in which exactly position `k` of column `m` of table `d` holds the (cast) value; same errors
+(`KeyError` for a missing field, `IndexError` beyond the length). -/
+theorem c16_poke_refines {s : St} {ts : List Table} (g : Good s ts) (d m k : Nat) (v : Int) :
+    Good (stepX s (.poke d m k v)).1 (stepTX ts (.poke d m k v)).1 ∧
+    (stepX s (.poke d m k v)).2 = (stepTX ts (.poke d m k v)).2 := by
+  have gs := g.toGoodS
+  simp only [stepX, stepTX]
+  cases hd : s.conts[d]? with
+  | none => simp only [getElem_none gs hd]; exact ⟨g, trivial⟩
+  | some src =>
+    obtain ⟨t, htd, rs⟩ := getElem_pair gs hd
+    have r := g.rep d src t hd htd
+    have wt := g.wf t (List.mem_of_getElem? htd)
+    simp only [htd]
+    rcases rs.lookup_cases m with ⟨h1, h2⟩ | ⟨l, col, h1, h2, h3⟩
+    · simp only [h1, h2]; exact ⟨g, trivial⟩
+    · simp only [h1, h3, h2]
+      by_cases hk : k < col.vals.length
+      · rw [if_pos hk, if_pos hk]
+        have hlt : l < s.heap.length := (List.getElem?_eq_some_iff.mp h2).1
+        have hdl : d < s.conts.length := (List.getElem?_eq_some_iff.mp hd).1
+        have hdt : d < ts.length := (List.getElem?_eq_some_iff.mp htd).1
+        have hml : (m, l) ∈ src.fields := mem_of_lookup _ _ _ h1
+        have hkn : (src.fields.map (·.1)).Nodup := by rw [r.keys]; exact wt.1
+        refine ⟨⟨by simp [g.len], ?_, ?_, ?_⟩, rfl⟩
+        · intro i ci ti hci hti
+          simp only at hci
+          by_cases hid : i = d
+          · subst hid
+            rw [hd] at hci; cases hci
+            simp only [List.getElem?_set_self hdt, Option.some.injEq] at hti
+            subst hti
+            refine ⟨?_, r.locs, ?_, r.len, r.idx⟩
+            · exact C16.poke_cols r.forall₂ r.locs hkn h1 hlt
+            · simp only [Table.keys, C16.map_if_keys]; exact r.names
+          · rw [List.getElem?_set_ne (Ne.symm hid)] at hti
+            have ri := g.rep i ci ti hci hti
+            refine rep_frame ri ?_
+            intro n l' hm'
+            have hne : l ≠ l' := by
+              rintro rfl
+              exact hid (g.noalias i d ci src n m l hci hd hm' hml)
+            simp only [List.getElem?_set_ne hne]
+        · intro t' ht'
+          rcases List.mem_or_eq_of_mem_set ht' with h' | h'
+          · exact g.wf t' h'
+          · rw [h']
+            refine ⟨by simp only [Table.keys, C16.map_if_keys]; exact wt.1, ?_⟩
+            intro p hp
+            obtain ⟨q, hq, rfl⟩ := List.mem_map.mp hp
+            split
+            · simp only [List.length_set]
+              exact wt.2 _ (mem_of_lookup _ _ _ h3)
+            · exact wt.2 q hq
+        · intro i j ci cj n m' l' hci hcj hn hm'
+          exact g.noalias i j ci cj n m' l' hci hcj hn hm'
+      · rw [if_neg hk, if_neg hk]; exact ⟨g, rfl⟩
+
+/-- non-vacuity and the meaning of liveness: with `t.append_field(2, t[0])` the caller's write through `t[0]` is read
+through slot 2 as well; the plain table (handed-in array by value) differs there — sharing is exactly what `Good` excludes -/
+example :
+    let s0 := runX ⟨[], []⟩ [.base (.new [(0, ⟨.i64, [3, 1, 2]⟩)]), .appendFieldFrom 0 2 0 0]
+    let s1 := (stepX s0 (.poke 0 0 1 9)).1
+    (viewAt s1 0).toOption.map (·.cols) = some [(0, ⟨.i64, [3, 9, 2]⟩), (2, ⟨.i64, [3, 9, 2]⟩)] ∧
+    (stepX s0 (.poke 0 0 5 9)).2 = .error .index ∧ (stepX s0 (.poke 0 7 0 9)).2 = .error .key := by decide
